@@ -127,6 +127,12 @@ func gen(t *rapid.T) world {
 	}
 	if mode == "dynamic" || mode == "both" {
 		d := mk(mode == "dynamic" && rapid.IntRange(0, 3).Draw(t, "twocols") == 0)
+		if mode == "both" && len(w.shard.cols) == 1 && rapid.Bool().Draw(t, "dynothercol") {
+			// the two limits restrict different columns: a row can satisfy one and not the other
+			two := mk(true)
+			d = limitSpec{cols: two.cols[1:], vals: two.vals[1:]}
+			d.descr = fmt.Sprintf("%v=%v", d.cols, d.vals)
+		}
 		w.dyn = &d
 		w.dynNilFilter = rapid.IntRange(0, 5).Draw(t, "dynnil") == 0
 		w.dynContinue = rapid.IntRange(0, 3).Draw(t, "dyncontinue") == 0
@@ -232,9 +238,23 @@ func gen(t *rapid.T) world {
 				if n > 1 && rapid.IntRange(0, 2).Draw(t, "rowok") > 0 {
 					rowComply = "ok" // only some rows of a multi-row call violate (any position)
 				}
+				if rowComply == "ok" && w.dyn != nil && w.dyn.cols[0] != "shard" && rapid.IntRange(0, 3).Draw(t, "dynwrong") == 0 {
+					rowComply = "dynwrong"
+				}
 				switch rowComply {
 				case "wrong", "missing":
 					setField(r, "shard", shardValue(w.table, 3-limVal, 0))
+				case "dynwrong":
+					// satisfies the shard limit, violates the dynamic limit's column
+					setField(r, "shard", shardValue(w.table, limVal, 0))
+					switch w.dyn.cols[0] {
+					case "i8":
+						setField(r, "i8", int8(0))
+					case "p_i32":
+						setField(r, "p_i32", int32(0))
+					default:
+						setField(r, "i_n_s", "b")
+					}
 				default:
 					setField(r, "shard", shardValue(w.table, limVal, 0))
 					for ci, c := range append(append([]string{}, w.shard.cols...), func() []string {
